@@ -1,6 +1,7 @@
 package cache
 
 import (
+	"io"
 	"io/ioutil"
 	"os"
 	"path/filepath"
@@ -34,6 +35,39 @@ func (f filebufferWithSize) Size() (int64, error) {
 func (f filebufferWithSize) Sync() error {
 	// No need to sync a in-memory buffer
 	return nil
+}
+
+func (f filebufferWithSize) Write(p []byte) (n int, err error) {
+	// `filebuffer.Buffer.Write` drops the content from the cursor on (and mangles the content in front of it) whenever
+	// the cursor is not at the end, so overwrite in place like a file does
+	if _, err := f.Buffer.Read(nil); err != nil {
+		return 0, err // Closed
+	}
+
+	if f.Index < 0 {
+		return 0, io.EOF
+	}
+
+	if gap := f.Index - int64(f.Buff.Len()); gap > 0 {
+		// Writing behind the end pads with zeros
+		if _, err := f.Buff.Write(make([]byte, gap)); err != nil {
+			return 0, err
+		}
+	}
+
+	n = copy(f.Buff.Bytes()[f.Index:], p)
+	if n < len(p) {
+		m, err := f.Buff.Write(p[n:])
+		n += m
+		if err != nil {
+			f.Index += int64(n)
+
+			return n, err
+		}
+	}
+	f.Index += int64(n)
+
+	return n, nil
 }
 
 func (f filebufferWithSize) Truncate(size int64) error {
